@@ -39,9 +39,17 @@ package ggql
 //@ fieldinv FieldDef.Type: v != nil && wfT(v)
 //@ fieldinv Arg.Type: v != nil && wfT(v)
 //@ axiom typeHList(t *List): t != nil ==> 0 <= typeH(t.Base) && typeH(t.Base) < typeH(box(t))
+//@ -- subT(target, sub): sub may stand where target is declared (GraphQL covariance as the statement gives it: the same type,
+//@ -- T! for T, a member for its union, an implementing object for its interface, and element-wise through wrappers)
+//@ spec memberUpTo(u *Union, sub Type, n int) bool = exists j int {u.Members[j]} :: 0 <= j && j < n && sameT(u.Members[j], sub)
+//@ spec implementsUpTo(o *Object, target Type, n int) bool = exists j int {o.Interfaces[j]} :: 0 <= j && j < n && sameT(o.Interfaces[j], target)
+//@ spec subT(target Type, sub Type) bool reads H_List.Base, H_NonNull.Base, H_Union.Members, H_Object.Interfaces, SH_Iface
+//@ axiom subTUnfold(target Type, sub Type): subT(target, sub) <==> (sameT(target, sub) || (is(sub, *NonNull) && sameT(target, as(sub, *NonNull).Base)) || (is(target, *Union) && memberUpTo(as(target, *Union), sub, len(as(target, *Union).Members))) || (is(target, *Interface) && is(sub, *Object) && as(sub, *Object) != nil && implementsUpTo(as(sub, *Object), target, len(as(sub, *Object).Interfaces))) || (is(target, *List) && is(sub, *List) && as(sub, *List) != nil && subT(as(target, *List).Base, as(sub, *List).Base)) || (is(target, *NonNull) && is(sub, *NonNull) && as(sub, *NonNull) != nil && subT(as(target, *NonNull).Base, as(sub, *NonNull).Base)))
 //@ func (*Object).isSubType
-//@   props C03
+//@   props C03 C13
 //@   check panic {C03}
+//@   ensures[covariance]{C13} res <==> subT(target, sub)
+//@   use subTUnfold(target, sub)
 //@   requires t != nil
 //@   requires wfT(target) && wfT(sub) && ptrval(target) != 0 && ptrval(sub) != 0
 //@   use wfTUnfold(target)
@@ -51,7 +59,9 @@ package ggql
 //@   use typeHList(as(target, *List))
 //@   assigns nothing
 //@   loop 0: use wfTUnfold(m)
+//@           invariant[none-yet]{C13} !memberUpTo(tt, sub, rangeindex+1)
 //@   loop 1: use wfTUnfold(i)
+//@           invariant[none-yet]{C13} !implementsUpTo(ot, target, rangeindex+1)
 
 //@ func (*Object).validateField
 //@   props C03
